@@ -55,16 +55,22 @@ static int pick_pos() {      // positions around the record-block boundaries and
 extern "C" void h_binary(void) {
     const int p = pick_pos();
     unsigned int bits[2] = { nondet_uint(), nondet_uint() };
+#ifdef VERIF_NATIVE
+    verif_memfile_name(1, "CASE.UNSMRY"); EclOutput* out = new EclOutput("CASE.UNSMRY", false, std::ios::out);
+#else
     EclOutput* out = reinterpret_cast<EclOutput*>(out_storage); out->isFormatted = false; out->ix_standard = false;
     verif_stream_bind(&out->ofileH, 1, 0); verif_memfile_name(1, "CASE.UNSMRY");
+#endif
     std::vector<std::uint64_t> stepPos;
     for (int step = 0; step < 2; ++step) {
         std::vector<float> params(NVECT); for (int i = 0; i < NVECT; ++i) params[i] = (float) (i + 7 * step);
         std::memcpy(&params[p], &bits[step], 4);                                   // the probed element: any bit pattern
         out->write(std::string("MINISTEP"), std::vector<int>{ step });
+        out->flushStream();
         stepPos.push_back((std::uint64_t) verif_memfile_size(1) + 24);             // data of PARAMS starts after its 24-byte header
         out->write(std::string("PARAMS"), params);
     }
+    out->flushStream();
     ESmry* e = mksmry(false, "CASE.UNSMRY", stepPos, p);
     const std::vector<float>& v = e->get(std::string("WOPR:W1"));
     CHECK(v.size() == 2);
